@@ -80,11 +80,12 @@ Definition expected : table :=
           [ ReturnErr ] [];
         Fn "Install.performInstallCtx" "";
         If CErr
-          [ Fn "Install.failRelease" "" ] [];
+          [ ArgErr;
+            Fn "Install.failRelease" "" ] [];
         Return ]);
     ("Install.performInstallCtx",
       [ Fn "Install.performInstall" "";
-        If CData
+        If (CFlag "ContextCancelled")
           [ Pure;
             Return ]
           [ Return ] ]);
@@ -236,20 +237,24 @@ Definition expected : table :=
           [ Return ] ]);
     ("Upgrade.reportToPerformUpgrade",
       [ If CErr
-          [ Fn "Upgrade.failRelease" "" ] [] ]);
+          [ ArgErr;
+            Fn "Upgrade.failRelease" "" ] [] ]);
     ("Upgrade.handleContext",
-      [ If CData
-          [ Fn "Upgrade.reportToPerformUpgrade" "" ]
+      [ If (CFlag "ContextCancelled")
+          [ Pure;
+            Fn "Upgrade.reportToPerformUpgrade" "" ]
           [ Return ] ]);
     ("Upgrade.releasingUpgrade",
       [ If (CNot (CFlag "DisableHooks"))
           [ Fn "Configuration.execHook" "pre-upgrade";
             If CErr
-              [ Fn "Upgrade.reportToPerformUpgrade" "";
+              [ ArgErr;
+                Fn "Upgrade.reportToPerformUpgrade" "";
                 Return ] [] ] [];
         Call KcUpdate;
         If CErr
           [ Fn "Configuration.recordRelease" "";
+            ArgErr;
             Fn "Upgrade.reportToPerformUpgrade" "";
             Return ] [];
         If (CFlag "Recreate")
@@ -257,25 +262,30 @@ Definition expected : table :=
         Pure;
         If CErr
           [ Fn "Configuration.recordRelease" "";
+            ArgErr;
             Fn "Upgrade.reportToPerformUpgrade" "";
             Return ] [];
         If (CFlag "WaitForJobs")
           [ Call KcWaitJobs;
             If CErr
               [ Fn "Configuration.recordRelease" "";
+                ArgErr;
                 Fn "Upgrade.reportToPerformUpgrade" "";
                 Return ] [] ]
           [ Call KcWait;
             If CErr
               [ Fn "Configuration.recordRelease" "";
+                ArgErr;
                 Fn "Upgrade.reportToPerformUpgrade" "";
                 Return ] [] ];
         If (CNot (CFlag "DisableHooks"))
           [ Fn "Configuration.execHook" "post-upgrade";
             If CErr
-              [ Fn "Upgrade.reportToPerformUpgrade" "";
+              [ ArgErr;
+                Fn "Upgrade.reportToPerformUpgrade" "";
                 Return ] [] ] [];
         Fn "Configuration.recordRelease" "";
+        ArgOk;
         Fn "Upgrade.reportToPerformUpgrade" "" ]);
     ("Upgrade.failRelease",
       [ Fn "Configuration.recordRelease" "";
